@@ -1,10 +1,12 @@
 (* Model of the async-read gate of conn_unix.go (Conn.AsyncRead, not ONESHOT) as it is after commits 0a74eed (one atomic
-   conditional increment), 15e9d4b (every read uses the whole buffer) and 55f84ef (end of stream is handled by the task):
+   conditional increment), 15e9d4b (every read uses the whole buffer), 55f84ef and 2333828 (end of stream is handled by
+   the task; a half-close event stores the flag first and calls AsyncRead once):
 
      poller, per readiness event:  loop { cnt := load readEvents; if cnt >= 2 return;
                                           if CAS(readEvents, cnt, cnt+1) { if cnt >= 1 return; break } }
                                    IOExecute(task)
-     poller, event with RDHUP only: [the above if the event also carries IN]; store readEOF := 1; the above once more
+     poller, event with RDHUP only: store readEOF := 1; then the above, once
+                                   (the model also admits the older order: an AsyncRead call for the IN part before the store)
      task:  loop { read pass: read until EAGAIN or a short read, every read handed to the data callback;
                    if load readEOF != 0 { read until n <= 0, handing every read to the callback; close; return }
                    if add(readEvents, -1) = 0 return }
